@@ -806,8 +806,8 @@ def scen_checks(w):
             pos.setdefault(a_, len(pos))
         full = list(pos)
         if len(pos) == len(full) == ln:
-          impl = ';'.join('%s-%s/%s' % (H(pos[ev[2][0][0]]), H(pos[ev[2][0][-1]]), H(len(ev[2][0])))
-                          for ev in calls)
+          impl = ';'.join(('%s-%s/%s' % (H(pos[ev[2][0][0]]), H(pos[ev[2][0][-1]]), H(len(ev[2][0]))))
+                          if len(ev[2][0]) else 'empty-window' for ev in calls)
 
           def wpred(calls=calls, ln=ln, pos=pos):
             covered = set()
